@@ -389,6 +389,8 @@ type ttxStream struct {
 	// multiplex choices
 	OtherPIDFirst bool `json:"other_pid_first"` // PMT lists non-teletext streams first
 	SecondTTXPID  bool `json:"second_ttx_pid"`  // a second teletext PID carrying the same page number with other text
+	// SecondLower: that second PID is numerically lower than the first one listed ("first" is the PMT's order)
+	SecondLower   bool `json:"second_pid_lower,omitempty"`
 	PMTRepeat     bool `json:"pmt_repeat"`
 	Stuffing      bool `json:"stuffing"`
 	NonSubtitle   bool `json:"non_subtitle"` // data units 0x02 carrying look-alike packets
@@ -419,6 +421,13 @@ const (
 	pmtPID   = 0x1000
 )
 
+func (s ttxStream) pid2() uint16 {
+	if s.SecondLower {
+		return 0x0f1
+	}
+	return ttxPID2
+}
+
 func (s ttxStream) pageOption() int {
 	m := int(s.Mag)
 	return m*100 + int(s.Tens)*10 + int(s.Units)
@@ -429,7 +438,7 @@ func (s ttxStream) render() ([]byte, []ttxExpCue) {
 	m := newTSMux()
 	es := []esEntry{{0x06, ttxPID, true, s.DescKind}}
 	if s.SecondTTXPID {
-		es = append(es, esEntry{0x06, ttxPID2, true, 0})
+		es = append(es, esEntry{0x06, s.pid2(), true, 0})
 	}
 	if s.OtherPIDFirst {
 		es = append([]esEntry{{0x02, videoPID, false, 0}, {0x06, 0x103, false, 0}}, es...)
@@ -574,7 +583,7 @@ func (s ttxStream) render() ([]byte, []ttxExpCue) {
 			send(ttxPID, secondPTS, second...)
 		}
 		if s.SecondTTXPID {
-			send(ttxPID2, in.PTS+7, headerUnit(sel(in), 0x03), rowUnit(s.Mag, 20, append(append([]byte{0x0b, 0x0b}, "SECOND PID"...), 0x0a, 0x0a), nil, 0x03))
+			send(s.pid2(), in.PTS+7, headerUnit(sel(in), 0x03), rowUnit(s.Mag, 20, append(append([]byte{0x0b, 0x0b}, "SECOND PID"...), 0x0a, 0x0a), nil, 0x03))
 		}
 		// after the instance: a terminating page (same magazine, or any magazine in serial mode) with its own rows
 		if in.PTS%2 == 0 || s.HexDistractor {
@@ -884,6 +893,7 @@ func genTTXStream(t *rapid.T) ttxStream {
 		Serial:        rapid.Bool().Draw(t, "serial"),
 		OtherPIDFirst: rapid.Bool().Draw(t, "otherpid"),
 		SecondTTXPID:  rapid.IntRange(0, 2).Draw(t, "secondpid") == 0,
+		SecondLower:   rapid.Bool().Draw(t, "secondlower"),
 		PMTRepeat:     rapid.Bool().Draw(t, "pmtrepeat"),
 		Stuffing:      rapid.Bool().Draw(t, "stuffing"),
 		NonSubtitle:   rapid.Bool().Draw(t, "nonsub"),
